@@ -62,7 +62,8 @@ def _vm_history(t, out):
     if k != "-":
         f = nx()
         c = {"dig-garbage": "KDigGarbage", "dig-drop": "KDigDrop", "len-inc": "KLenInc", "len-drop": "KLenDrop",
-             "type-other": "KTypeOther", "type-garbage": "KTypeGarbage", "type-drop": "KTypeDrop", "loc-drop": "KLocDrop"}.get(f)
+             "type-other": "KTypeOther", "type-garbage": "KTypeGarbage", "type-drop": "KTypeDrop", "loc-drop": "KLocDrop",
+             "name-unknown": "KNameUnknown"}.get(f)
         if f == "dig-other":
             c = "(KDigOther %s)" % _s(nx())
         if f == "status":
@@ -134,7 +135,8 @@ def _vm_seek(t, out):
         j, f = rest[0], rest[1]
         rest = rest[2:]
         c = {"dig-garbage": "KDigGarbage", "dig-drop": "KDigDrop", "len-inc": "KLenInc", "len-drop": "KLenDrop",
-             "type-other": "KTypeOther", "type-garbage": "KTypeGarbage", "type-drop": "KTypeDrop", "loc-drop": "KLocDrop"}.get(f)
+             "type-other": "KTypeOther", "type-garbage": "KTypeGarbage", "type-drop": "KTypeDrop", "loc-drop": "KLocDrop",
+             "name-unknown": "KNameUnknown"}.get(f)
         if f == "dig-other":
             c = "(KDigOther %s)" % _s(rest[0]); rest = rest[1:]
         if f == "status":
